@@ -26,7 +26,7 @@ CONSTANTS
     MaxOps,       \* bound on the number of steps of a behaviour (constructor included)
     Texts,        \* argument strings for push_str / insert_str / replace_range / fmt pieces
     CTexts,       \* argument strings of the C-string constructors (NUL first / inside / last / absent)
-    Lits,         \* sequence of format-string literals (mirrored in harness/strs: LITS)
+    Lits,         \* sequence of format-string literals (mirrored by with_args() in harness/strs)
     Kinds,        \* subset of {"box", "fixed", "grow"}
     FixedCaps,    \* capacities (bytes) of fixed strings
     StartTexts,   \* strings the from_str constructor starts from
